@@ -18,9 +18,10 @@ import (
 //                   constrain its content.
 //   tpl_small       the total size of the template expansion (number of declaration nodes after
 //                   copying every referenced template at every reference site) is <= 50000.
-//   groups_shallow  csv2 `child_records` / fixedlength2 `child_envelopes` nest at most 8 deep (their
-//                   JSON schema is a `oneOf` of three alternatives that all recurse into the
-//                   children, which gojsonschema evaluates in time 3^depth).
+//   groups_small    csv2 `child_records` / fixedlength2 `child_envelopes`: their JSON schema is a
+//                   `oneOf` of three alternatives that all recurse into the children, which
+//                   gojsonschema evaluates in time cost(list) = sum over elements of
+//                   3 * (1 + cost(children)); the guard is cost <= 50000 (about 0.3 s).
 //   xpath_plain     no xpath string (value of an `xpath` member, or any string below `xpath_dynamic`)
 //                   has a function call outside a predicate: such expressions compile, but
 //                   antchfx/xpath dereferences nil when they are used through Expr.Select.
@@ -33,8 +34,8 @@ func guardViolation(tree interface{}) string {
 	if !xpathsPlain(tree, false) {
 		return "xpath_plain"
 	}
-	if groupDepth(tree) > 8 {
-		return "groups_shallow"
+	if groupCost(tree) > 50000 {
+		return "groups_small"
 	}
 	if expansionSize(tree) > 50000 {
 		return "tpl_small"
@@ -144,27 +145,42 @@ func expansionSize(tree interface{}) int64 {
 	return size(td["FINAL_OUTPUT"])
 }
 
-func groupDepth(v interface{}) int {
-	d := 0
-	switch x := v.(type) {
-	case map[string]interface{}:
-		for _, k := range keysOf(x) {
-			c := groupDepth(x[k])
-			if k == "child_records" || k == "child_envelopes" {
+// groupCost: see groups_small.  Saturates.
+func groupCost(v interface{}) int64 {
+	const cap = int64(1) << 40
+	var listCost func(v interface{}) int64
+	listCost = func(v interface{}) int64 {
+		arr, ok := v.([]interface{})
+		if !ok {
+			return 0
+		}
+		var c int64
+		for _, e := range arr {
+			m, ok := e.(map[string]interface{})
+			if !ok {
 				c++
+				continue
 			}
-			if c > d {
-				d = c
+			k := int64(0)
+			for _, key := range []string{"child_records", "child_envelopes"} {
+				k += listCost(m[key])
+			}
+			c += 3 * (1 + k)
+			if c > cap {
+				return cap
 			}
 		}
-	case []interface{}:
-		for _, e := range x {
-			if c := groupDepth(e); c > d {
-				d = c
-			}
-		}
+		return c
 	}
-	return d
+	m, ok := v.(map[string]interface{})
+	if !ok {
+		return 0
+	}
+	fd, ok := m["file_declaration"].(map[string]interface{})
+	if !ok {
+		return 0
+	}
+	return listCost(fd["records"]) + listCost(fd["envelopes"])
 }
 
 // xpathPlain: no `name(` at bracket depth 0 other than the node-type tests.
